@@ -1,3 +1,4 @@
+import Nstd.Generated.JsonTables
 /-
   Executable model of src/Document/Json.cpp (property C15), mirroring the control flow of the
   repaired code (fixes/json/01..04).
@@ -15,8 +16,13 @@
   yields their value, `printf("%d"/"%lld")` prints the decimal representation,
   `isdigit/isxdigit` in the C locale, `strpbrk`.  Doubles (`atof`, `"%f"`) are opaque: a
   double value carries the token text.
+
+  The escape tables (`unescTable`, `escSet`, `escTable`, `escDefaultPrefix`, `hexAlphabet`) are
+  NOT written here: `tools/gen_json.py` regenerates `Nstd/Generated/JsonTables.lean` from the
+  current Json.cpp on every run.
 -/
 namespace Nstd.Json
+open Nstd.Generated.Json
 
 scoped notation "Byte" => Nat
 
@@ -52,6 +58,13 @@ def isSpace (c : Byte) : Bool := (9 ≤ c && c ≤ 13) || c == 32
 def isDigit (c : Byte) : Bool := 48 ≤ c && c ≤ 57
 def isHexDigit (c : Byte) : Bool := isDigit c || (65 ≤ c && c ≤ 70) || (97 ≤ c && c ≤ 102)
 def hexVal (c : Byte) : Nat := if c ≤ 57 then c - 48 else if c ≤ 70 then c - 55 else c - 87
+
+def lookup {β : Type} (k : Nat) : List (Nat × β) → Option β
+  | [] => none
+  | (k', v) :: t => if k' = k then some v else lookup k t
+
+/-- the escape switch of `readToken` (generated table): letter after the backslash ↦ byte appended -/
+def unesc (e : Nat) : Option Nat := lookup e unescTable
 
 /-- `sscanf(k, "%x", &w)` for a string of hexadecimal digits -/
 def scanHex (k : List Byte) : Nat := k.foldl (fun a c => a * 16 + hexVal c) 0
@@ -122,13 +135,10 @@ def readStr : Nat → Nat → List Byte → List Byte → Res (Nat × List Byte 
       match r with
       | [] => .oob
       | e :: r' =>
-        if e = 34 ∨ e = 92 ∨ e = 47 then readStr f line (acc ++ [e]) r'
-        else if e = 98 then readStr f line (acc ++ [8]) r'
-        else if e = 102 then readStr f line (acc ++ [12]) r'
-        else if e = 110 then readStr f line (acc ++ [10]) r'
-        else if e = 114 then readStr f line (acc ++ [13]) r'
-        else if e = 116 then readStr f line (acc ++ [9]) r'
-        else if e = 117 then
+        match unesc e with
+        | some b => readStr f line (acc ++ [b]) r'       -- a case of the escape switch: `value.append(b); ++pos.pos;`
+        | none =>
+        if e = 117 then
           (hex4 line 4 [] r').bind fun (k, r2) =>
             let w1 := scanHex k
             if w1 &&& 0xF800 = 0xD800 ∧ w1 &&& 0xFC00 = 0xD800 then
@@ -290,7 +300,8 @@ def parse (buf : List Byte) : PRes :=
 
 /-! ### serialisation -/
 
-def hexLower (n : Nat) : Byte := if n < 10 then 48 + n else 87 + n
+/-- `"0123456789abcdef"[n]` (generated alphabet) -/
+def hexLower (n : Nat) : Byte := hexAlphabet.getD n 0
 
 /-- the body of `appendEscapedString`: `strpbrk` stops at the first NUL of the string, the
     rest is appended unescaped -/
@@ -298,14 +309,10 @@ def escLoop : List Byte → List Byte
   | [] => []
   | c :: s =>
     if c = 0 then c :: s
-    else if c = 34 then [92, 34] ++ escLoop s
-    else if c = 92 then [92, 92] ++ escLoop s
-    else if c = 8 then [92, 98] ++ escLoop s
-    else if c = 12 then [92, 102] ++ escLoop s
-    else if c = 10 then [92, 110] ++ escLoop s
-    else if c = 13 then [92, 114] ++ escLoop s
-    else if c = 9 then [92, 116] ++ escLoop s
-    else if c < 32 then [92, 117, 48, 48, hexLower (c / 16 % 16), hexLower (c % 16)] ++ escLoop s
+    else if escSet.contains c then
+      match lookup c escTable with
+      | some t => t ++ escLoop s                  -- a case of `switch(*e)`
+      | none => escDefaultPrefix ++ [hexLower (c / 16 % 16), hexLower (c % 16)] ++ escLoop s
     else c :: escLoop s
 
 def escaped (s : List Byte) : List Byte := [34] ++ escLoop s ++ [34]
